@@ -155,6 +155,22 @@ class MultiMatcher(mcore.Matcher):
     def children(self):
         return [self.matchers[self.current]]
 
+    def matching_terms(self, id=None):
+        # The sub-matchers number their documents from 0: translate the
+        # (global) document number before asking the current one (the base
+        # class compared it with the sub-matcher's local id(), so no term
+        # was ever reported in a segment with a non-zero offset)
+        if not self.is_active():
+            return
+        if id is None:
+            id = self.id()
+        elif id != self.id():
+            return
+        current = self.current
+        localid = id - self.offsets[current]
+        for t in self.matchers[current].matching_terms(localid):
+            yield t
+
     def _next_matcher(self):
         matchers = self.matchers
         while (self.current < len(matchers)
